@@ -295,6 +295,10 @@ def run(ctx, rule, roots, label, exclude_prefix=()):
             if s.status != "open":
                 continue
             cands = [s.key] if exact else [k for k in by_base.get(base(s.key), []) if k not in used_t3]
+            if not exact and not cands and "::{closure}" in base(s.key):
+                # the construct moved into a closure of the function the entry names (`x.and_then(|c| c[2]..)`): same
+                # construct, its side condition is re-checked in the closure
+                cands = [k for k in by_base.get(base(s.key).replace("::{closure}", ""), []) if k not in used_t3]
             last = None
             for k in cands:
                 e = t3.get(k)
